@@ -722,6 +722,10 @@ class RefSim:
         self.warmups = []
         self.again_done = set()
         self._actions(self.p["root"], -1)
+        # initial methods (Simulator.add_initial_method): one call per registration, in registration order, after
+        # construct_model and before the warm-up is scheduled (only cases that carry "initial_calls")
+        for idx in self.p.get("initial_calls", []):
+            self._actions(self.p["initial"][idx], -3 - idx)
         # the warm-up event: scheduled after construct_model with MAX priority
         w = [self.warm, -10, self.order, None, "W"]
         self.order += 1
